@@ -179,9 +179,35 @@ func (p *Prog) rejectBlockOK() (bool, []string) {
 	if ok, w := p.skipFieldsOK(); !ok {
 		why = append(why, w...)
 	}
-	fd := p.decl("(*serverConn).rejectBlock")
-	if fd == nil {
+	// rejectBlock is either the draining function itself, counting one field
+	// beyond the stream's count, or a one-line wrapper that passes that count to
+	// rejectBlockFrom, which takes the count from its caller
+	bodyFn, countExpr := "(*serverConn).rejectBlock", ""
+	if fd := p.decl("(*serverConn).rejectBlock"); fd == nil {
 		fail("(*serverConn).rejectBlock no longer resolves")
+	} else if len(fd.Body.List) == 1 {
+		ok := false
+		if res := retResults(fd.Body.List[0]); len(res) == 1 {
+			if c, isC := res[0].(*ast.CallExpr); isC && p.calleeOf(c) == "(*serverConn).rejectBlockFrom" && len(c.Args) == 5 {
+				names := []string{}
+				for _, f := range fd.Type.Params.List {
+					for _, n := range f.Names {
+						names = append(names, n.Name)
+					}
+				}
+				if len(names) == 4 && p.text(c.Args[0]) == names[0] && p.text(c.Args[1]) == names[1] && p.text(c.Args[2]) == names[2] && squash(p.text(c.Args[3])) == names[0]+".blockFields+1" && p.text(c.Args[4]) == names[3] {
+					ok = true
+				}
+			}
+		}
+		if !ok {
+			fail("rejectBlock no longer passes (stream, frame, rest of the fragment, the stream's field count plus one, reason) on to rejectBlockFrom")
+		}
+		bodyFn = "(*serverConn).rejectBlockFrom"
+	}
+	fd := p.decl(bodyFn)
+	if fd == nil {
+		fail(bodyFn + " no longer resolves")
 	} else {
 		names := []string{}
 		for _, f := range fd.Type.Params.List {
@@ -189,12 +215,20 @@ func (p *Prog) rejectBlockOK() (bool, []string) {
 				names = append(names, n.Name)
 			}
 		}
-		if len(names) != 4 {
-			fail("rejectBlock no longer takes (stream, frame, rest of the fragment, reason)")
-		} else {
-			strm, fr, b, reason := names[0], names[1], names[2], names[3]
+		var strm, fr, b, reason string
+		switch {
+		case bodyFn == "(*serverConn).rejectBlock" && len(names) == 4:
+			strm, fr, b, reason = names[0], names[1], names[2], names[3]
+			countExpr = strm + ".blockFields+1"
+		case bodyFn == "(*serverConn).rejectBlockFrom" && len(names) == 5:
+			strm, fr, b, reason = names[0], names[1], names[2], names[4]
+			countExpr = names[3]
+		default:
+			fail(bodyFn + " no longer takes (stream, frame, rest of the fragment, [fields decoded,] reason)")
+		}
+		if strm != "" {
 			l := fd.Body.List
-			want0 := squash(fmt.Sprintf("carry, fields, err := sc.skipFields(%s, %s.blockFields+1, %s.Flags().Has(FlagEndHeaders))", b, strm, fr))
+			want0 := squash(fmt.Sprintf("carry, fields, err := sc.skipFields(%s, %s, %s.Flags().Has(FlagEndHeaders))", b, countExpr, fr))
 			if len(l) < 5 || squash(p.text(l[0])) != want0 {
 				fail("rejectBlock no longer starts by decoding the rest of the fragment, one field further into the block than the stream's count, as the last fragment exactly when the frame carries END_HEADERS")
 			}
@@ -221,7 +255,7 @@ func (p *Prog) rejectBlockOK() (bool, []string) {
 			}
 			// every other way out is a connection error: what the function can
 			// return is its reason or a GOAWAY-class error, nothing else
-			if f := p.ssaFunc("(*serverConn).rejectBlock"); f != nil {
+			if f := p.ssaFunc(bodyFn); f != nil {
 				sawReason := false
 				for _, c := range p.returnErrClasses(f, 4) {
 					switch {
